@@ -83,3 +83,11 @@ def random_variant(rnd, s):
     rk = {"ws1": rnd.choice([" ", "  ", "\t", " \t "]), "ws2": rnd.choice([" ", "   ", "\t"]),
           "lower": rnd.random() < 0.3, "comment": rnd.choice([None, None, "note", "x,X #5 'q", ""])}
     return t, rk
+
+
+def every_cell(stmts, rnd, k=2):
+    """k statements of EVERY cell (mnemonic x form x sub-form x indirect x forced mode) of the exported table, whatever else a run samples"""
+    percell = {}
+    for st in stmts:
+        percell.setdefault((st["mn"], st["form"], st["sub"] if st["form"] == "idx" else "", st["ind"], st["force"]), []).append(st)
+    return [x for v in percell.values() for x in (v if len(v) <= k else rnd.sample(v, k))]
